@@ -54,7 +54,7 @@ import (
 	"runtime"
 	"runtime/debug"
 	"slices"
-		_ "unsafe"
+	_ "unsafe"
 
 	"golang.org/x/tools/go/ssa"
 )
@@ -98,6 +98,7 @@ type interpreter struct {
 	mapOrderBound    int
 	protected        map[interface{}]string // cells / maps / slices' first cell that must not be written
 	initDone         map[*ssa.Package]bool
+	onceInit         map[string]bool
 }
 
 type deferred struct {
@@ -522,7 +523,7 @@ func callSSA(i *interpreter, caller *frame, callpos token.Pos, fn *ssa.Function,
 		if fn.Synthetic == "package initializer" && fn.Pkg != nil && !i.program.initAllowed[fn.Pkg] {
 			return nil // inits outside the allow-list are not executed
 		}
-		if st := i.program.Stubs[name]; st != nil && i.path != nil {
+		if st := i.program.stubFor(name, i.path.entryFn()); st != nil {
 			fn = st
 			fr.fn = st
 			name = st.String()
@@ -725,4 +726,3 @@ func doRecover(caller *frame) value {
 	}
 	return iface{}
 }
-
